@@ -272,7 +272,7 @@ func checkCodecCase(c *rt.C, prop string, env *codecEnv, m *dynamicpb.Message, c
 		return
 	}
 	n1, e1 := normMessage(env.model, m, env.decodeAny)
-	n2, e2 := normMessage(env.model, m2, env.decodeAny)
+	n2, e2 := normObserved(env.model, m2, env.decodeAny)
 	if e1 != nil {
 		panic("harness: cannot normalise generated message: " + e1.Error())
 	}
